@@ -1,6 +1,6 @@
 (* C11: faithful model of
      - proc_macro2 token printing of a #[validate(..)] meta list          (tok_string; copied from Model/Scan.v)
-     - src/analysis/validator_parser.rs  (substring scanners on tokens.to_string(), byte/char index arithmetic)
+     - src/analysis/validator_parser.rs  (substring scanners on tokens.to_string(), byte offset arithmetic)
      - src/generators/zod/schema_builder.rs (render_type / apply_* / escape_js_string)
    Definitions only. Strings are byte lists (UTF-8). Defects of the code are reproduced, not repaired. *)
 From Coq Require Import String Ascii List Arith Lia Bool NArith DecimalString.
@@ -156,12 +156,13 @@ Definition parse_u64 (s : str) : option str :=
          else None
   end.
 
-(* the closing-quote scan: chars().enumerate() - returns the CHARACTER index of the closing quote *)
+(* the closing-quote scan: char_indices() - returns the BYTE offset of the closing quote
+   (continuation bytes belong to the character before them: they advance the offset and nothing else) *)
 Fixpoint scan_close (q : ascii) (s : str) (i : nat) (escaped : bool) : option nat :=
   match s with
   | [] => None
   | b :: s' =>
-      if is_cont b then scan_close q s' i escaped
+      if is_cont b then scan_close q s' (S i) escaped
       else if escaped then scan_close q s' (S i) false
       else if Ascii.eqb b "\" then scan_close q s' (S i) true
       else if Ascii.eqb b q then Some i
@@ -192,7 +193,7 @@ Definition parse_message (content : str) : outcome (option str) :=
           | q :: rest =>
               if Ascii.eqb q dq || Ascii.eqb q sq then
                 match scan_close q rest 0 false with
-                | Some i => obind (slice_to rest i) (fun m => Ok (Some (unescape m)))     (* &rest[..i], i a char index *)
+                | Some i => obind (slice_to rest i) (fun m => Ok (Some (unescape m)))     (* &rest[..i], i a byte offset *)
                 | None => Ok None end
               else Ok None
           | [] => Ok None end
@@ -282,10 +283,10 @@ Definition render_primitive (name : str) (v : option vattrs) (skip is_key : bool
   else if str_eqb name (L "boolean") then L "z.coerce.boolean()"
   else if str_eqb name (L "void") then L "z.void()"
   else L "z.unknown() /* Unknown primitive: " ++ name ++ L " */".
-(* render_type: note that the Optional arm passes skip_validation = false to its inner type *)
+(* render_type: the Optional arm passes skip_validation through to its inner type *)
 Fixpoint render_type (t : tstruct) (v : option vattrs) (skip is_key : bool) : str :=
   match t with
-  | TsOpt inner => render_type inner v false is_key ++ L ".optional()"
+  | TsOpt inner => render_type inner v skip is_key ++ L ".optional()"
   | TsPrim p => render_primitive p v skip is_key
   | TsArr inner => apply_length_validator (L "z.array(" ++ render_type inner v true false ++ L ")") v skip
   | TsCustom n => n ++ L "Schema"
